@@ -6,3 +6,4 @@ for i in 01 02 03 04 05 06 07 08 09 10 11 12 13 14 15 16 17 18 19 20; do
   out=$(./check C$i --tier "$tier" 2>&1); rc=$?
   echo "C$i exit=$rc $(echo "$out" | grep -E '^(OK|VIOLATION|KNOWN-FINDING|TIMEOUT|INFRA)' | tr '\n' ' ')"
 done
+python3 "$(dirname "$0")/opaudit.py"
